@@ -87,6 +87,28 @@ def check_case(sink, seed, idx):  # noqa: C901
         k2, back = outcome(lambda: optree.tree_transpose(ispec, ospec, res, is_leaf=o.is_leaf))
         d = same.diff(tree, back) if k2 == 'ok' else repr(back)
         sink.check(k2 == 'ok' and d is None, 'transpose/involution', 'transposing back returns the original tree', ident, d)
+        # a second pair that is EQUAL as treespecs (sorted mode ignores insertion order) but whose dicts were filled in another order: the result
+        # must carry the key order of the treespecs of THIS call (and the involution must give this tree back), whatever was transposed before
+        if o.pred == 'none' and any(nd.k in gen.DICTS and len(nd.items) > 1 for d_ in (od, idesc) for nd in d_.walk()):
+            od2, id2 = od.copy(), idesc.copy()
+            for d_ in (od2, id2):
+                for nd in d_.walk():
+                    if nd.k in gen.DICTS and len(nd.items) > 1:
+                        rng.shuffle(nd.items)
+            ot2, _ = gen.materialize(od2, rng)
+            it2, _ = gen.materialize(id2, rng)
+            os2, is2 = optree.tree_structure(ot2, **kw), optree.tree_structure(it2, **kw)
+            if os2.num_leaves == m and is2.num_leaves == n:
+                grid2 = [[U.Leaf(('t', i, j)) for j in range(n)] for i in range(m)]
+                tree2 = os2.unflatten([is2.unflatten(grid2[i]) for i in range(m)])
+                k9, res2 = outcome(lambda: optree.tree_transpose(os2, is2, tree2, is_leaf=o.is_leaf))
+                want2 = is2.unflatten([os2.unflatten([grid2[i][j] for i in range(m)]) for j in range(n)]) if k9 == 'ok' else None
+                d9 = same.diff(want2, res2) if k9 == 'ok' else repr(res2)[:200]
+                sink.check(k9 == 'ok' and d9 is None, 'transpose/reordered-twin', 'the transposed tree has the node types, metadata and KEY ORDER of the treespecs passed to this call', ident, d9)
+                k10, back2 = outcome(lambda: optree.tree_transpose(is2, os2, res2, is_leaf=o.is_leaf)) if k9 == 'ok' else ('skipped', None)
+                d10 = same.diff(tree2, back2) if k10 == 'ok' else repr(back2)[:200]
+                sink.check(k10 in ('ok', 'skipped') and (k10 == 'skipped' or d10 is None), 'transpose/reordered-twin-involution', 'transposing back returns the original tree', ident, d10)
+                sink.count('reordered-twin-transposes')
         # rejections
         other_nil = optree.tree_structure(itree0, is_leaf=o.is_leaf, none_is_leaf=not o.none_is_leaf, namespace=o.namespace)
         if other_nil.num_leaves:
@@ -225,6 +247,7 @@ def finalize(sink, tier, seed):
     sink.require('rejections:namespace')
     sink.require('deviating-results')
     sink.require('first-result-defines', 100)
+    sink.require('reordered-twin-transposes', 100)
     for r in (0, 1, 2, 3):
         sink.require(f'transpose-maps-with-rests:{r}', 50)
     for v in ('tree_transpose_map', 'tree_transpose_map_with_path', 'tree_transpose_map_with_accessor'):
